@@ -313,7 +313,7 @@ Section CwWrite.
 
   Lemma cw_key' : slot_key f' = p.
   Proof.
-    destruct (gw_entry_kept fsz vid s vi v bl rch T Hinv h fi f Hr b stored s' f' v' ch' Hpost) as ((_ & _ & Eb & Eo & _) & _).
+    destruct (gw_entry_kept _ _ _ _ _ _ _ _ _ _ _ _ _ Hpost) as ((_ & _ & Eb & Eo & _) & _).
     unfold p, slot_key. rewrite Eb, Eo. reflexivity.
   Qed.
 
